@@ -903,7 +903,9 @@ def generate_c14(seed, tier):
            'clock': None, 'threads': r.choice([1, 1, 2, 16])}
     # storage dtype of the class values (building metadata, matching metadata / hypothesis values)
     scn['vdtype'] = rng.stream(seed, 'vdtype').choice(['uint8', 'uint8', 'uint16', 'uint32', 'int16', 'int32'])
-    scn['build_twice'] = rng.stream(seed, 'history').random() < 0.12
+    hs = rng.stream(seed, 'history')
+    scn['build_twice'] = hs.random() < 0.12
+    scn['build_fault'] = hs.choice([0, 0, 1, 2, 3]) if hs.random() < 0.12 else None
     return scn
 
 
@@ -978,6 +980,7 @@ def execute_c14(scn):
     prec = scn['precision']
     tol = compare.tol_for(prec, independent=True)
     sig_tail = [kind, scn['style']]
+    c14_faults = {}
 
     def mk_container(lo, hi, tag):
         if kind == 'tstatic':
@@ -999,6 +1002,38 @@ def execute_c14(scn):
                 violation = viol('match_before_build_not_refused', ['C14', 'match_before_build_not_refused'] + sig_tail, 'run() before build() returned normally')
             except Exception:
                 probes['refused_before_build'] = 1
+        if violation is None and scn.get('build_fault') is not None:
+            # fault during the building phase (storage read error on the k-th batch): build() must raise, and a build that did not complete is
+            # not a build - matching is still refused.  Probed on a separate object.
+            st_f = Storage()
+            cnt = {'n': 0, 'fired': False}
+
+            def on_fetch(kind_, tag, ids, key):
+                if kind_ == 'samples':
+                    cnt['n'] += 1
+                    if cnt['n'] == scn['build_fault'] + 1:
+                        cnt['fired'] = True
+                        raise InjectedIOError('injected read error while building')
+            st_f.on_fetch = on_fetch
+            att_f = _c14_attack(scn, scared, st_f, Tb, vb, 'buildfault')
+            try:
+                att_f.build()
+                raised = False
+            except Exception:
+                raised = True
+            c14_faults['storage_read_error:build'] = [1, int(cnt['fired'])]
+            if cnt['fired']:
+                probes['build_fault_fired'] = 1
+                st_f.on_fetch = None
+                if not raised:
+                    violation = viol('failed_build_not_reported', ['C14', 'failed_build_not_reported'] + sig_tail, 'storage error during build() but build() returned normally')
+                else:
+                    try:
+                        att_f.run(mk_container(0, nm, 'after_failed_build'))
+                        violation = viol('match_after_failed_build_not_refused', ['C14', 'match_after_failed_build_not_refused'] + sig_tail,
+                                         'build() failed on batch %d, yet run() was accepted' % scn['build_fault'])
+                    except Exception:
+                        probes['refused_after_failed_build'] = 1
         if violation is None:
             try:
                 att.build()
@@ -1076,7 +1111,7 @@ def execute_c14(scn):
                 violation = viol('match_raised', ['C14', 'match_raised'] + sig_tail + [type(e).__name__], 'matching run raised %r' % (e,))
     case = rng.digest([kind, classes, scn['L'], prec, scn['build_rule'], scn['match_rule'], scn['match_cuts'], len(Tb), nm])
     return {'violation': violation, 'inconclusive': False, 'digest': rng.digest(storage.events), 'case': case, 'nontrivial': True,
-            'faults': {}, 'probes': probes, 'sim_time': storage.seq}
+            'faults': c14_faults, 'probes': probes, 'sim_time': storage.seq}
 
 
 # ----------------------------------------------------------------------------- shrinking
@@ -1179,7 +1214,7 @@ def _cands_c14(scn):
         c['per_class'] = [2] * len(c['per_class'])
         yield c
     for key, val in (('match_cuts', []), ('probe_before_build', False), ('build_rule', 1000), ('build_rule_2', 1000), ('match_rule', 1000),
-                     ('threads', 1), ('tdtype', 'float32'), ('key', 0), ('vdtype', 'uint8'), ('build_twice', False)):
+                     ('threads', 1), ('tdtype', 'float32'), ('key', 0), ('vdtype', 'uint8'), ('build_twice', False), ('build_fault', None)):
         if scn.get(key) != val:
             c = copy.deepcopy(scn)
             c[key] = val
